@@ -118,6 +118,9 @@ func main() {
 		// two remote instances publish at once: several merges in one pass of the loop, application commits in between
 		small = append(small, part{"loop-" + name + "-two-remotes", bound, loopworld.Cfg{Native: native, Remote2: true, TwoRemotes: true, MaxVisits: 1, AppOps: []string{"put-b", "del-a", "newdbi"}}})
 	}
+	// a receive-only instance (merges, never uploads) whose application writes locally all the same
+	small = append(small, part{"loop-shadow-receive-only", bound, loopworld.Cfg{Native: false, ReceiveOnly: true, Remote2: true, MaxVisits: 1, AppOps: []string{"put-b", "put-a", "del-a"}}},
+		part{"loop-native-receive-only", bound, loopworld.Cfg{Native: true, ReceiveOnly: true, Remote2: true, MaxVisits: 1, AppOps: []string{"put-b", "del-a"}}})
 	// cheapest parts first; every part may use an equal share of what is left of the budget
 	parts := append(small, large...)
 	for i, p := range parts {
